@@ -82,6 +82,15 @@ def cases(tier, seed):
         for vi, var in enumerate(G.PARAM_VARIANTS):
             for ctl in ("DistanceRatio", "Exact"):
                 out.append({"t": "A", "spec": spec, "cfg": {"control": ctl, "iteration_limit": HORIZON[tier], "pv": vi}, "sc": G.scalings_of(spec, (0, 1))[vi % 2]})
+    # (A7) constraints that are locally linear (positive-part cubics, C2): the Jacobian is the same at the start and at the first trial
+    #      points and changes later
+    for x0 in ([-30.0, 0.0], [-3.0, 1.0], [-0.5, -0.5]):
+        for rk in ("eq", "upper"):
+            row = {"a": [0.0, 1.0], "pcub": [-1.0, 0.0], "b": 0.0, "lb": 0.0 if rk == "eq" else "-inf", "ub": 0.0}
+            spec = G.raw(2, {"H": [[2.0, 0.0], [0.0, 2.0]], "g": [-4.0, 0.0]}, [row], ["-inf", "-inf"], ["inf", "inf"], x0, f"locally_linear_row|{x0}|{rk}")
+            for ctl in ("DistanceRatio", "Exact", "ResiduumRatio"):
+                for sc in G.scalings_of(spec, (0, 1)):
+                    out.append({"t": "A", "spec": spec, "cfg": {"control": ctl, "iteration_limit": 300}, "sc": sc})
     # (A6) unvalidated input on every row-kind tuple (slack-free problems with right-hand sides, three interleaved rows)
     vi_nv = next(i for i, v in enumerate(G.PARAM_VARIANTS) if v == {"validate_input": False})
     for rows in ([("affine", "eqoff")], [("affine", "eqoff"), ("sphere", "eqoff")], [("affine", "eq0"), ("bilinear", "eqoff")],
